@@ -41,6 +41,8 @@ def run(ck: Check) -> None:
     t2(ck)
     t3(ck)
     t4(ck)
+    t5(ck)
+    ck.floor("T5", 14)
     ck.floor("T1", 9)
     ck.floor("T2", 1)
     ck.floor("T3", 4)
@@ -549,6 +551,92 @@ def _loops_complete(ck: Check, fm: FuncModel, g: FuncModel, se, label: str) -> N
             ck.ob("T4", fm, n, not bad, f"every element of {it} is encoded" if not bad else
                   f"{label}: the loop over `{it}` is left early (line {bad}): the remaining elements are not encoded",
                   key=f"for over {it[:60]}")
+
+
+FORWARDED = ("ensure_subspace", "avoid_subspaces", "retained_set", "problem", "reverse_time", "optimize_source_variables")
+
+
+def _same_request(v: ast.AST, pn: str) -> bool:
+    """value-preserving spellings: a copy of the parameter, or the parameter with a default for None"""
+    t = text(v)
+    if t in (pn, f"list({pn})", f"dict({pn})", f"{pn}.copy()", f"copy({pn})", f"copy.copy({pn})", f"tuple({pn})"):
+        return True
+    if isinstance(v, ast.BoolOp) and isinstance(v.op, ast.Or) and len(v.values) == 2 and text(v.values[0]) == pn:
+        return True
+    if isinstance(v, ast.IfExp):
+        tt = text(v.test)
+        if tt in (f"{pn} is None",) and _same_request(v.orelse, pn):
+            return True
+        if tt in (f"{pn} is not None",) and _same_request(v.body, pn):
+            return True
+    return False
+
+
+def t5(ck: Check) -> None:
+    """What the caller asked for reaches the encoder: between the solver entry points and the functions that write the
+    ASP program, the request parameters are handed down unchanged (a `None` may be replaced by the default)."""
+    prog = ck.prog
+    MOD = "biobalm.trappist_core"
+    for fm in prog.models():
+        f = fm.f
+        if f.module.name != MOD:
+            continue
+        mine = set(f.params())
+        # a request parameter is re-bound only to supply the default of an omitted argument
+        for n in fm.cfg.nodes:
+            if n.kind not in ("stmt", "for", "with") or n.ast is None:
+                continue
+            for pn in FORWARDED:
+                if pn in mine and pn in fm.cfg.defs_of(n):
+                    v = n.ast.value if isinstance(n.ast, ast.Assign) and len(n.ast.targets) == 1 and text(n.ast.targets[0]) == pn else None
+                    pc = fm.pc(n)
+                    none_atom = logic.B(f"none:{pn}")
+                    ok = v is not None and ((none_atom[1] in logic.atoms(pc) and logic.implies(pc, none_atom)) or _same_request(v, pn))
+                    ck.ob("T5", fm, n.ast, ok, f"`{pn}`: default for an omitted argument" if ok else
+                          f"the request parameter `{pn}` is re-bound (`{text(n.ast)[:60]}`) although the caller supplied a "
+                          f"value: the rest of the function works with something the caller did not ask for",
+                          key=f"{f.name}: rebinding of {pn}")
+        for c in own_walk(f.node):
+            if not isinstance(c, ast.Call):
+                continue
+            tgt = prog.repo.resolve_call(f, c)
+            if not tgt or not tgt.startswith(MOD + ":") or tgt == f.key:
+                continue
+            g = prog.repo.functions[tgt]
+            gp = g.params()
+            for pn in FORWARDED:
+                if pn not in mine or pn not in gp:
+                    continue
+                a = call_arg(c, gp.index(pn), pn)
+                cn = fm.cfgn(c)
+                probs = []
+                if a is None:
+                    probs.append(f"`{pn}` is not handed to {g.name}: the callee falls back to its default")
+                else:
+                    vds = fm.value_defs(a.id, cn) if isinstance(a, ast.Name) else [(cn, a)]
+                    for d, v in vds:
+                        if d.kind == "entry":
+                            nm = a.id if isinstance(a, ast.Name) else None
+                            # the entry definition must be the parameter of the same name (possibly through plain copies)
+                            continue
+                        if v is None:
+                            probs.append(f"line {d.lineno}: `{pn}` is bound by a {type(d.ast).__name__}")
+                            continue
+                        if (isinstance(v, ast.Name) and v.id == pn) or _same_request(v, pn):
+                            continue
+                        pc = fm.pc(d)
+                        none_atom = logic.B(f"none:{pn}")
+                        if none_atom[1] in logic.atoms(pc) and logic.implies(pc, none_atom):
+                            continue       # default for an omitted argument
+                        probs.append(f"line {d.lineno}: `{pn}` is replaced by `{text(v)[:60]}` before it reaches {g.name}: the "
+                                     f"encoder no longer sees the caller's request (e.g. an avoided subspace that contradicts "
+                                     f"the enclosing subspace must exclude nothing; a rewritten one excludes solutions)")
+                    if isinstance(a, ast.Name) and a.id != pn and not any(
+                            isinstance(v, ast.Name) and v.id == pn for d, v in fm.value_defs(a.id, cn)) \
+                            and all(d.kind == "entry" for d, v in vds):
+                        probs.append(f"{g.name} receives `{a.id}` as its `{pn}`")
+                ck.ob("T5", fm, f.stmt_of(c), not probs, "; ".join(probs) if probs else
+                      f"`{pn}` handed down to {g.name} unchanged", key=f"{f.name} -> {g.name}: {pn}")
 
 
 def t4(ck: Check) -> None:
